@@ -379,6 +379,13 @@ Definition serve_clauses (s : srt) (o : line) (r : list bytes) : list bytes :=
                                                                         | TLit _ => false end) (snd pt)) l
                           | None => false end in
   let lt := if negb (ascii_bytes path) && table_has_regexp then None else lt in   (* runes vs bytes: not judged *)
+  (* "{name:}" (an empty rule spelled with its colon) is another spelling of "{name}" for the tokenizer but another
+     parameter for the router; the procedure is stated for canonical spellings (C02_tree_refines_resolver_refuted) *)
+  let canonical_pat (q : bytes) := match index q (bs ":}") with Some _ => false | None => true end in
+  let lt := match lt with
+            | Some l => if forallb (fun pt => canonical_pat (fst pt)) l then lt else None
+            | None => None
+            end in
   let special := beqb path (bs "*") || beqb path [] || (trace && beqb method TRACE) in
   (* ---- resolution against the table (C02 on add-only routers, C03 on simple witnesses) *)
   let resolution :=
